@@ -11,9 +11,22 @@ SIM="$VERIF_DIR/sim"
 BIN="$VERIF_DIR/.build/bin"
 mkdir -p "$BIN"
 
+# The library is built from /repo's working tree. VERIF_REPO (a debugging aid,
+# unset in every registered command) points the build at another copy of the
+# tree, e.g. a snapshot, so that a long background run is not affected by
+# patches applied to /repo meanwhile.
+REPO="${VERIF_REPO:-/repo}"
+MODFLAG=""
+if [ "$REPO" != "/repo" ]; then
+  sed "s#=> /repo#=> $REPO#" "$SIM/go.mod" > "$BIN/alt.$$.mod"
+  cat "$REPO/go.sum" "$SIM/go.sum.extra" | sort -u > "$BIN/alt.$$.sum"
+  MODFLAG="-modfile=$BIN/alt.$$.mod"
+  trap 'rm -f "$BIN/alt.$$.mod" "$BIN/alt.$$.sum"' EXIT
+fi
+
 build() { # $1 = output name, $2.. = extra go build flags
   local out="$BIN/$1"; shift
-  ( cd "$SIM" && cat /repo/go.sum go.sum.extra | sort -u > go.sum && go build -tags verif "$@" -o "$out" . ) 2>"$BIN/build.$$.log"
+  ( cd "$SIM" && cat "$REPO/go.sum" go.sum.extra | sort -u > go.sum && go build $MODFLAG -tags verif "$@" -o "$out" . ) 2>"$BIN/build.$$.log"
   local rc=$?
   if [ $rc -ne 0 ]; then
     echo "INFRA: build against /repo working tree failed:" >&2
@@ -35,17 +48,17 @@ case "$1" in
     f="$2"
     prop=$(basename "$f" | cut -d- -f1)
     if [ "$prop" = "C19" ]; then build simkv-replay -race; else build simkv-replay; fi
-    exec "$BIN/simkv-replay" replay "$f" ;;
+    "$BIN/simkv-replay" replay "$f"; exit $? ;;
   C19)
     build "simkv-$1" -race
     if [ "${2:-quick}" = "thorough" ] && command -v go1.26.8 >/dev/null 2>&1; then
       # second Go runtime (other scheduler, map seeds, race runtime): half of the workers use it
-      ( cd "$SIM" && go1.26.8 build -tags verif -race -o "$BIN/simkv-$1-alt" . ) 2>/dev/null && export SIMKV_ALT_BIN="$BIN/simkv-$1-alt"
+      ( cd "$SIM" && go1.26.8 build $MODFLAG -tags verif -race -o "$BIN/simkv-$1-alt" . ) 2>/dev/null && export SIMKV_ALT_BIN="$BIN/simkv-$1-alt"
     fi
-    exec "$BIN/simkv-$1" check -prop "$1" -tier "${2:-quick}" ;;
+    "$BIN/simkv-$1" check -prop "$1" -tier "${2:-quick}"; exit $? ;;
   C*)
     build "simkv-$1"
-    exec "$BIN/simkv-$1" check -prop "$1" -tier "${2:-quick}" ;;
+    "$BIN/simkv-$1" check -prop "$1" -tier "${2:-quick}"; exit $? ;;
   *)
     echo "usage: $0 <Cxx> <quick|thorough> | replay <file> | setup" >&2
     exit 2 ;;
